@@ -212,7 +212,10 @@ func (p *LiteralPolicy) IsSmallInt(c constant.Value) bool {
 	}
 	val, exact := constant.Int64Val(c)
 	if !exact {
-		return false
+		// Does not fit an int64 (e.g. a uint64 constant >= 1<<63). Such a value is outside any
+		// bounded range; a policy whose range is the whole int64 domain (keep every literal)
+		// keeps it too.
+		return p.SmallIntMin == math.MinInt64 && p.SmallIntMax == math.MaxInt64
 	}
 	return val >= p.SmallIntMin && val <= p.SmallIntMax
 }
